@@ -14,16 +14,77 @@ from .tables import MUTATING_METHODS, MUTATING_EXT, PURE_RAW_ENTRIES, MUTATING_R
 MUTATORS_BY_KEY = {'push', 'pop', 'insert', 'remove', '__setitem__', '__setitem_with_op__', '__delitem__'}
 
 
-def param_root(t) -> Optional[str]:
-    """Name of the parameter a value is (part of), or None when it is a fresh/unknown object."""
+# builtins / methods whose result is a new container holding the *same* element objects as their argument
+ELEMENT_PRESERVING = {'list', 'tuple', 'sorted', 'reversed', 'iter', 'enumerate', 'zip', 'filter', 'set', 'frozenset', 'dict', 'next'}
+ELEMENT_PRESERVING_METHODS = {'values', 'items', 'copy', 'keys'}
+ELEMENT_OF_RECEIVER = {'get', 'pop', 'popitem', 'setdefault', '__getitem__'}
+_FACTS = None            # set by check(): needed to summarise package functions handed to map()
+_ALIAS_SUMMARY: Dict[str, Set[int]] = {}
+
+
+def _returns_alias_of(q: str) -> Set[int]:
+    """Indices of the parameters that a package function can return as they are (or a part of)."""
+    if q in _ALIAS_SUMMARY:
+        return _ALIAS_SUMMARY[q]
+    _ALIAS_SUMMARY[q] = set()
+    out: Set[int] = set()
+    F = _FACTS
+    if F is not None and q in F.functions:
+        fi = F.functions[q]
+        names = [a.arg for a in getattr(fi.node.args, 'posonlyargs', []) + fi.node.args.args]
+        try:
+            for p in SymExec(F, fi).run():
+                if p.normal:
+                    r = param_root(p.outcome[1])
+                    if r in names:
+                        out.add(names.index(r))
+        except AnalysisError:
+            pass
+    _ALIAS_SUMMARY[q] = out
+    return out
+
+
+def param_root(t, _elem: bool = False) -> Optional[str]:
+    """Name of the parameter a value is (part of), or None when it is a fresh/unknown object.
+    _elem: the question is about an element/part of t, not about t itself (a fresh list of the caller's objects is
+    fresh, its elements are not)."""
     t = freeze(t)
     while isinstance(t, tuple) and t:
         if t[0] == 'param':
             return t[1]
         if t[0] in ('attr', 'sub', 'elem', 'unpack', 'unpack*', 'star', 'withas'):
             t = t[1]
+            _elem = True
         elif t[0] == 'phi':
             t = t[3]
+        elif t[0] == 'call' and len(t) >= 4:
+            f, args = t[2], t[3]
+            if isinstance(f, tuple) and f and f[0] == 'attr' and f[2] in ELEMENT_OF_RECEIVER:
+                t = f[1]
+                _elem = True
+                continue
+            if not _elem:
+                return None
+            if isinstance(f, tuple) and f[:2] == ('ref', 'builtin') and f[2] in ELEMENT_PRESERVING:
+                for a in (args[1:] if f[2] == 'filter' else args):
+                    r = param_root(a, True)
+                    if r is not None:
+                        return r
+                return None
+            if isinstance(f, tuple) and f and f[0] == 'attr' and f[2] in ELEMENT_PRESERVING_METHODS:
+                t = f[1]
+                continue
+            if f in (('ref', 'ext', 'copy.copy'),) and args:
+                t = args[0]
+                continue
+            if f == ('ref', 'builtin', 'map') and len(args) >= 2 and isinstance(args[0], tuple) and args[0][:2] == ('ref', 'fn'):
+                for i in sorted(_returns_alias_of(args[0][2])):
+                    if i + 1 < len(args):
+                        r = param_root(args[i + 1], True)
+                        if r is not None:
+                            return r
+                return None
+            return None
         else:
             return None
     return None
@@ -66,6 +127,9 @@ def check(chk: Check) -> None:
     chk.decided += ['mutation effects of every non-mutator in the function table, through helpers (inlined) and closures']
     chk.assumptions += ['the purity classification of Python builtins/descriptors used raw in the table (len, str, dict, min, max, str.*) and of '
                         'library calls (sorted, list, copy.copy, regex.*, ...) is part of the checker (tables.py)']
+    global _FACTS
+    _FACTS = F
+    _ALIAS_SUMMARY.clear()
     tab = functab.table(F)
     missing = MUTATORS_BY_KEY - set(tab)
     n_cb = 0
@@ -124,5 +188,78 @@ def check(chk: Check) -> None:
                         if cbs and f[2] in ('filter', 'map', 'functools.reduce'):
                             chk.ok(R2, '%s :: callback via `%s`' % (ent.label, e.text()), '%s:%d' % (fi.module.rel, e.line),
                                    'hands the program-supplied function to %s' % f[2])
+    _r3(chk)
     if missing:
         chk.notes.append('mutators named by the statement but absent from the table: %s' % sorted(missing))
+
+
+def _value_root(t, roots) -> Optional[Any]:
+    """The child-evaluation result / looked-up value that t is (a part of), if any."""
+    t = freeze(t)
+    while isinstance(t, tuple) and t:
+        if t in roots:
+            return t
+        if t[0] in ('attr', 'sub', 'elem', 'unpack', 'unpack*', 'star'):
+            t = t[1]
+        elif t[0] == 'phi':
+            t = t[3]
+        else:
+            return None
+    return None
+
+
+def _r3(chk: Check) -> None:
+    """Between the builtins of a pipeline sit the evaluator's own operators: a value produced by a sub-expression (which may
+    be the very object a builtin handed back, e.g. get(d, k) or a host list) must not be modified by the node that
+    consumes it.  Only the assignment forms write, and they write into the scoped names, not into operand values."""
+    F = chk.facts
+    R3 = chk.rule('C13.R3', 'no eval method or lambda closure applies a mutating operation (mutating method, subscript/attribute '
+                            'store or del, in-place operator, mutating library call) to a value a child evaluation or a name '
+                            'lookup produced', floor=10)
+    chk.decided += ['operand values are never modified by the evaluator itself (R3)']
+    from . import common
+    units = []
+    for cls in om.op_classes(F):
+        if not om.own_eval(F, cls):
+            continue
+        q = cls + '.eval'
+        units.append((q, F.func(q), om.eval_paths(F, cls), ('param', om.self_param(F, q)), ('param', om.state_param(F, q))))
+    for owner, c, p in common.eval_closures(chk):
+        fi = F.func(owner)
+        units.append((c.qual, fi, closure_paths(F, fi, c), ('param', om.self_param(F, owner)), ('param', om.state_param(F, owner))))
+    seen_units = set()
+    for q, fi, paths, selft, stt in units:
+        if q in seen_units:
+            continue
+        seen_units.add(q)
+        problems = []
+        for p in paths:
+            roots = set()
+            for e in p.events:
+                if om.is_child_eval(e, selft, stt) and e.kind == 'call':
+                    roots.add(freeze(e.result))
+                if e.kind == 'load_sub' and om.carries(e.obj, stt):
+                    roots.add(('sub', freeze(e.obj), freeze(e.index)))
+            for e in p.events:
+                if e.kind in ('store_sub', 'aug_sub', 'del_sub', 'store_attr', 'aug_attr', 'del_attr'):
+                    r = _value_root(e.obj, roots)
+                    if r is not None:
+                        problems.append('`%s` writes into the value `%s` produced' % (e.text(), show(r)))
+                elif e.kind == 'aug_name' and e.op in ('+', '*', '|', '&', '-', '^'):
+                    r = _value_root(e.cur, roots)
+                    if r is not None:
+                        problems.append('`%s` may update the value `%s` produced in place' % (e.text(), show(r)))
+                elif e.kind == 'call' and not e.d.get('inlined'):
+                    f = freeze(e.func)
+                    if isinstance(f, tuple) and f and f[0] == 'attr' and f[2] in MUTATING_METHODS and not e.d.get('on_fresh_list'):
+                        r = _value_root(f[1], roots)
+                        if r is not None:
+                            problems.append('`%s` calls the mutating method .%s on the value `%s` produced' % (e.text(), f[2], show(r)))
+                    if isinstance(f, tuple) and f[:2] == ('ref', 'ext') and f[2] in MUTATING_EXT:
+                        for i in MUTATING_EXT[f[2]]:
+                            if i < len(e.args):
+                                r = _value_root(e.args[i], roots)
+                                if r is not None:
+                                    problems.append('`%s`: %s modifies the value `%s` produced' % (e.text(), f[2], show(r)))
+        chk.require(not problems, R3, q, fi.where if hasattr(fi, 'where') else '', '; '.join(sorted(set(problems))[:3]) or
+                    '%d path(s): operand values are read, combined and passed on, never modified' % len(paths))
